@@ -343,19 +343,27 @@ def classify(src, calls, v0, known):
       fp = "dict-display:duplicate-constant-key"
   if fp is not None and (fp in known or fp in _classified):
     return fp, None                      # already reported / listed: no need to minimise again
-  b = E2E.Budget(60, 240.0)
-  m = E2E.minimise(src, still, b)
-  m = E2E.simplify_exprs(m, still, E2E.Budget(40, 160.0))
-  m = E2E.minimise(m, still, E2E.Budget(20, 80.0))
+  if fp is None and _classified.get("(unclassified, minimised)", 0) >= MAX_UNCLASSIFIED:
+    return "(unclassified, not minimised: budget of %d minimisations used)" % MAX_UNCLASSIFIED, None
+  m = E2E.minimise(src, still, E2E.Budget(150, 600.0))
+  m = E2E.simplify_exprs(m, still, E2E.Budget(80, 300.0))
+  m = E2E.minimise(m, still, E2E.Budget(30, 120.0))
   if fp is None:
+    _classified["(unclassified, minimised)"] = _classified.get("(unclassified, minimised)", 0) + 1
     feats = E2E.features(m)
     for f in feats:
       if f.startswith("builtin:") or f.startswith("builtin-method:"):
         nm = f.split(":", 1)[1]
         if _cures_builtin(m, nm, still):
           return "builtin-result:" + nm, m
-    fp = v0["kind"] + ":" + "+".join(feats)
+    # fallback: the violated check + the distinctive constructs left in the minimised program
+    core = [f for f in feats if f in CORE_FEATURES]
+    fp = "unclassified:" + v0["kind"] + ":" + "+".join(core)
   return fp, m
+
+
+CORE_FEATURES = ("attr-store", "boolop", "call-repeated", "class-derived", "class-multi", "closure",
+                 "comprehension", "lambda", "method-call", "subscript", "try")
 
 
 def _cures_builtin(src, name, still):
@@ -402,19 +410,18 @@ MAX_UNCLASSIFIED = 10
 
 
 def report_violation(res, origin, src, calls, v0, pool):
-  """fingerprint (+ minimise the first of its kind) + res.violation; at most 3 unlisted violations are reported"""
-  n_new = sum(1 for v in res.violations if v["found_input"])
-  if n_new >= 3:
-    _classified["(not classified: 3 unlisted violations already reported)"] = \
-        _classified.get("(not classified: 3 unlisted violations already reported)", 0) + 1
-    return
+  """fingerprint every violation (cheap probes; the first of a kind is minimised); res.violation for the first
+  of each fingerprint, at most 3 unlisted ones"""
   t0 = time.time()
   fp, m = classify(src, calls, v0, res.known)
   if fp == "not-reproducible":
+    _classified[fp] = _classified.get(fp, 0) + 1
     return
   first = fp not in _classified
   _classified[fp] = _classified.get(fp, 0) + 1
-  if not first:
+  if not first or fp.startswith("(unclassified, not minimised"):
+    return
+  if fp not in res.known and sum(1 for v in res.violations if v["found_input"]) >= 3:
     return
   m = m or src
   pyi, _ = pytype_pyi(m)
